@@ -65,7 +65,7 @@ add("C14", "fault_enumeration",
     "exhaustive fault (truncation point) enumeration on the real parser", "DESIGN.md §5 C14", "E-ENUM")
 
 add("C15", "model_checking",
-    "Every point of the scale ladder (every structural repetition the formats allow - records per set, sets per message, template records per set, fields per template, packets per buffer, variable-length lengths, zero-length-field templates, announced counts over short bodies, the V9 retry loop, templates whose fields under-declare their length, and n = 1..32 768 already-cached definitions of either kind followed by one fixed maximal definition or data buffer or by a buffer packed with minimal packets - at n in {1..16, 24, 32, ... , max-1, max} up to the datagram limit) and every case of the V9/IPFIX grammar products is executed in an isolated worker whose counting global allocator measures bytes requested, peak live and bytes live at return; three fixed laws (peak, output, total/backstop) are judged per evaluation, a growth law per ladder rung (allocation beyond 64 bytes per byte of cached template, per byte of input+output, may not grow more than 3x with n) and a conservative wall-time growth law confirmed by isolated re-measurement.",
+    "Every point of the scale ladder (every structural repetition the formats allow - records per set, sets per message, template records per set, fields per template, packets per buffer, variable-length lengths, zero-length-field templates, announced counts over short bodies, the V9 retry loop, templates whose fields under-declare their length, and n = 1..32 768 already-cached definitions of either kind followed by one fixed maximal definition or data buffer or by a buffer packed with minimal packets - at n in {1..16, 24, 32, ... , max-1, max} up to the datagram limit) and every case of the V9/IPFIX grammar products is executed in an isolated worker whose counting global allocator measures bytes requested, peak live and bytes live at return; three fixed laws (peak, output, total/backstop) are judged per evaluation, a growth law per ladder rung (allocation beyond 64 bytes per byte of cached template, per byte of input+output, may not grow more than 3x with n; judged a second time on the allocation beyond an executable model of the recorded per-packet copy) and a conservative wall-time growth law confirmed by isolated re-measurement.",
     "the constants of the laws are chosen with head-room over the measured benign maxima (reported in the evidence); coverage is the ladder and the grammar product, not all buffers; trusted: alloc.rs, sweep.rs",
     "bounded-exhaustive execution sweep with allocation accounting (stateless exploration of real code)", "DESIGN.md §5 C15", "E-SWEEP")
 add("C16", "model_checking",
@@ -73,7 +73,7 @@ add("C16", "model_checking",
     "trusted: json.rs and c16::expected (serde derive conventions of the public types, pinned by the repository's YAML snapshots)",
     "bounded-exhaustive enumeration of results with an independent reader and hand-built expected tree", "DESIGN.md §5 C16", "E-ENUM")
 add("C17", "model_checking",
-    "Step 0 builds the library with --no-default-features (failure is the violation). Then the default build and the feature-off build of the same harness each walk every index of C04's and C05's conformant stream spaces, recording a digest of (decoded results, re-export, common view) per index: known-only streams must agree exactly between the builds; streams with a field the library types Unknown must yield no decoded record containing it in the feature-off build (and do yield it in the default build).",
+    "Step 0 builds the library with --no-default-features (failure is the violation). Then the default build and the feature-off build of the same harness each walk every index of C04's and C05's conformant stream spaces, recording a digest of (decoded results, re-export, common view) per index: known-only streams must agree exactly between the builds; streams with a field the library types Unknown must yield no decoded record containing it in the feature-off build (and do yield it in the default build), and their known-only PACKETS (classified by the reference decode of the bytes) must agree between the builds too; two further stream spaces redefine an id across packets between a definition with an unknown field and a known-only one, in both directions.",
     "trusted: c17::observe; enterprise-specific fields are outside the unknown-field clause",
     "cross-configuration differential enumeration over the bounded stream spaces", "DESIGN.md §5 C17", "E-ENUM")
 
